@@ -1067,3 +1067,172 @@ Fixpoint queue_list (fuel : nat) (h : heap) (q : ptr) : list qcell :=
     | Some a => match PM.find a (reqs h) with Some c => c :: queue_list f h (q_next c) | None => [] end
     end
   end.
+
+(* ======================================================================================
+   Copy-out into a caller buffer (renderbuffer.c get_span_text behind
+   tickit_renderbuffer_get_cell_text / tickit_renderbuffer_get_span; mockterm.c
+   tickit_mockterm_get_display_text).  The caller's buffer is a list of exactly [len]
+   bytes; a write at an index that is not below [len] answers [None]: it went beyond the
+   length given.  The text to copy (the bytes selected by the UTF-8 counting functions of
+   property C07) is an input of the model.
+   ====================================================================================== *)
+Definition buf := list Z.
+Fixpoint buf_set (b : buf) (i : nat) (v : Z) : option buf :=
+  match b, i with
+  | [], _ => None
+  | _ :: t, O => Some (v :: t)
+  | x :: t, S i' => match buf_set t i' v with Some t' => Some (x :: t') | None => None end
+  end.
+Fixpoint buf_copy (b : buf) (off : nat) (src : list Z) : option buf :=
+  match src with
+  | [] => Some b
+  | x :: s' => match buf_set b off x with Some b' => buf_copy b' (S off) s' | None => None end
+  end.
+
+Inductive cellkind :=
+| CText (slice : list Z)      (* TEXT span: the bytes between start and end *)
+| CGlyph (bytes : list Z)     (* LINE / CHAR: tickit_utf8_put of one code point *)
+| CEmpty.                     (* SKIP / ERASE *)
+
+(* get_span_text(rb, span, offset, one_grapheme, buffer, len) with buffer != NULL;
+   result: None = a write beyond the buffer, Some (return value, buffer afterwards) *)
+Definition get_span_text (asis : bool) (k : cellkind) (b : buf) : option (Z * buf) :=
+  let len := Z.of_nat (length b) in
+  match k with
+  | CText slice =>
+    let bytes := Z.of_nat (length slice) in
+    if len <? bytes then Some (-1, b)
+    else
+      match buf_copy b O slice with                     (* strncpy / memcpy of [bytes] bytes *)
+      | None => None
+      | Some b1 =>
+        let after_case :=
+          if asis then buf_set b1 (length slice) 0      (* pinned: buffer[bytes] = 0 inside the case *)
+          else Some b1 in
+        match after_case with
+        | None => None
+        | Some b2 =>
+          if bytes <? len then                          (* if(buffer && len > bytes) buffer[bytes] = 0 *)
+            match buf_set b2 (length slice) 0 with Some b3 => Some (bytes, b3) | None => None end
+          else Some (bytes, b2)
+        end
+      end
+  | CGlyph g =>
+    let n := Z.of_nat (length g) in
+    if len <? n then Some (-1, b)                       (* tickit_utf8_put: -1; (size_t)-1 is not below len *)
+    else
+      match buf_copy b O g with
+      | None => None
+      | Some b1 =>
+        if n <? len then
+          match buf_set b1 (length g) 0 with Some b2 => Some (n, b2) | None => None end
+        else Some (n, b1)
+      end
+  | CEmpty =>
+    if 0 <? len then
+      match buf_set b O 0 with Some b1 => Some (0, b1) | None => None end
+    else Some (0, b)
+  end.
+
+(* tickit_renderbuffer_get_span: returns len, stores the text length in info->len *)
+Definition get_span_call (asis : bool) (k : cellkind) (b : buf) : option (Z * Z * buf) :=
+  match get_span_text asis k b with
+  | None => None
+  | Some (r, b') => Some (Z.of_nat (length b), r, b')
+  end.
+
+(* tickit_mockterm_get_display_text as pinned (strcpy writes the cell's bytes and a NUL):
+   [active] = buffer != NULL, [off] = how far buffer has advanced, [rem] = len *)
+Fixpoint mock_get_text (cells : list (list Z)) (b : buf) (active : bool) (off : nat) (rem : Z) (acc : Z)
+  : option (Z * buf) :=
+  match cells with
+  | [] => Some (acc, b)
+  | cell :: rest =>
+    let n := Z.of_nat (length cell) in
+    if active && negb (n =? 0) && (n <=? rem) then
+      match buf_copy b off (cell ++ [0]) with
+      | None => None
+      | Some b1 =>
+        let rem' := rem - n in
+        mock_get_text rest b1 (negb (rem' <=? 0)) (off + length cell) rem' (acc + n)
+      end
+    else mock_get_text rest b active off rem (acc + n)
+  end.
+Definition mock_display_text (cells : list (list Z)) (b : buf) : option (Z * buf) :=
+  mock_get_text cells b true O (Z.of_nat (length b)) 0.
+
+(* the trigger class of the recorded finding: some cell fills the remaining length exactly *)
+Fixpoint mock_trigger (cells : list (list Z)) (rem : Z) : bool :=
+  match cells with
+  | [] => false
+  | cell :: rest =>
+    let n := Z.of_nat (length cell) in
+    if negb (n =? 0) && (n <=? rem) then (n =? rem) || mock_trigger rest (rem - n)
+    else mock_trigger rest rem
+  end.
+
+(* ======================================================================================
+   Reference-counted objects that only hold references to one another (pens, strings,
+   render buffers, terminals, the toplevel instance): a count and the objects whose
+   references die with this one.
+   ====================================================================================== *)
+Record ocell := mkO { o_rc : Z; o_holds : list positive }.
+Record oheap := mkOH { objs : PM.t ocell; nexto : positive }.
+Inductive oop :=
+| ObNew (adopt reads : list positive) (* constructor; takes over one reference to each object in [adopt], reads those in [reads] *)
+| ObRef (i : positive)
+| ObUnref (i : positive)
+| ObUse (l : list positive).          (* any other call: reads the objects in [l] *)
+
+Inductive ores := OOk (h : oheap) | OFault | ONoFuel.
+
+Fixpoint o_unref (fuel : nat) (i : positive) (h : oheap) {struct fuel} : ores :=
+  match fuel with
+  | O => ONoFuel
+  | S f =>
+    match PM.find i (objs h) with
+    | None => OFault
+    | Some c =>
+      if o_rc c - 1 =? 0 then o_unref_all f (o_holds c) (mkOH (PM.remove i (objs h)) (nexto h))
+      else OOk (mkOH (PM.add i (mkO (o_rc c - 1) (o_holds c)) (objs h)) (nexto h))
+    end
+  end
+with o_unref_all (fuel : nat) (l : list positive) (h : oheap) {struct fuel} : ores :=
+  match fuel with
+  | O => ONoFuel
+  | S f =>
+    match l with
+    | [] => OOk h
+    | i :: l' => match o_unref f i h with OOk h' => o_unref_all f l' h' | r => r end
+    end
+  end.
+
+Definition o_live (h : oheap) (i : positive) : bool := PM.mem i (objs h).
+
+Definition o_step (fuel : nat) (o : oop) (h : oheap) : ores :=
+  match o with
+  | ObNew adopt reads =>
+    if forallb (o_live h) adopt && forallb (o_live h) reads
+    then OOk (mkOH (PM.add (nexto h) (mkO 1 adopt) (objs h)) (Pos.succ (nexto h)))
+    else OFault
+  | ObRef i =>
+    match PM.find i (objs h) with
+    | Some c => OOk (mkOH (PM.add i (mkO (o_rc c + 1) (o_holds c)) (objs h)) (nexto h))
+    | None => OFault
+    end
+  | ObUnref i => o_unref fuel i h
+  | ObUse l => if forallb (o_live h) l then OOk h else OFault
+  end.
+
+Inductive overdict := OVOk (leak : bool) | OVFault (step : nat) | OVNoFuel (step : nat).
+Fixpoint o_run_from (fuel : nat) (l : list oop) (step : nat) (h : oheap) : overdict :=
+  match l with
+  | [] => OVOk (negb (PM.is_empty (objs h)))
+  | o :: l' =>
+    match o_step fuel o h with
+    | OOk h' => o_run_from fuel l' (S step) h'
+    | OFault => OVFault step
+    | ONoFuel => OVNoFuel step
+    end
+  end.
+Definition o_run (fuel : nat) (l : list oop) : overdict := o_run_from fuel l O (mkOH (PM.empty ocell) 1%positive).
